@@ -91,9 +91,21 @@ class SchedLock(object):
         self.waiters = set()
         self.events = []
 
-    def acquire(self, *a, **kw):
+    def acquire(self, blocking=True, timeout=-1):
         name = getattr(TLS, "name", None)
         s = self.sched
+        if (not blocking or (timeout is not None and timeout >= 0)) and self.owner not in (None, name):
+            # a bounded wait: in logical time the holder may be arbitrarily slow, so the wait may run out.
+            # The holder gets one more step; if it still holds the lock the acquisition fails, as RLock.acquire would.
+            with s.cv:
+                s.clock += 1
+                self.events.append((s.clock, name, "timed-wait"))
+            s.yield_("lock-timed-wait")
+            if self.owner not in (None, name):
+                with s.cv:
+                    s.clock += 1
+                    self.events.append((s.clock, name, "timed-out"))
+                return False
         with s.cv:
             while self.owner not in (None, name):
                 s.blocked.add(name)
